@@ -93,7 +93,7 @@ def generate(targets, procs=16):
     return pargen.generate(load_world, targets, procs)
 
 
-def discharge_all(gens, timeout_ms):
+def discharge_all(gens, timeout_ms, quick=False):
     obs = []
     for g in gens:
         if not g["ok"]:
@@ -104,7 +104,10 @@ def discharge_all(gens, timeout_ms):
             ob.parts = [Ob({"name": p["name"], "kind": o["kind"], "where": o["where"], "trivial": False,
                             "_smt2": p["smt2"], "func": o["func"]}) for p in o.get("parts", [])] or None
             obs.append(ob)
-    res = solve.discharge(obs, timeout_ms=timeout_ms)
+    if quick:
+        res = solve._discharge_flat(obs, timeout_ms, None, want_model=False, quick=True)
+    else:
+        res = solve.discharge(obs, timeout_ms=timeout_ms)
     return obs, res
 
 
@@ -231,8 +234,24 @@ def main(argv):
     gens = generate(targets) if targets else []
     unsupported = [g for g in gens if not g["ok"]]
     internal = [g for g in unsupported if g.get("internal")]
+    # ---- bounded part first (always: non-vacuity witness + stand-in; it is the fallback for failed obligations).
+    # When it already holds a concrete failing input for this property the verdict is VIOLATION whatever the solvers
+    # say: the obligations are then discharged with a short budget only (they are listed, not fought over).
+    keys = sorted({k for k, _ in targets})
+    bounded = None
+    try:
+        bounded = run_bounded(pid, tier, seed, keys)
+    except Exception as ex:
+        lines.append("CHECKER: bounded part crashed: " + repr(ex) + "\n" + traceback.format_exc(limit=8))
+        exit_code = 3
+    known = load_known()
+    early = bounded is not None and any(
+        (world is None or clause_in_property(world, v, pid)) and match_known(pid, v, known) is None
+        for v in bounded["violations"])
+    if early:
+        timeout_ms = 8000
     n_cov, vacuous = check_covers(gens)
-    obs, res = discharge_all(gens, timeout_ms)
+    obs, res = discharge_all(gens, timeout_ms, quick=early)
     lemma_res = []
     if world is not None:
         from .lemmas import prove_lemmas
@@ -243,15 +262,6 @@ def main(argv):
     discharged = n_obl - len(failed)
     refuted = [(o, r) for (o, r) in failed if r[0] == "sat"]
     undecided = [(o, r) for (o, r) in failed if r[0] != "sat"]
-    # ---- bounded part (always: non-vacuity witness + stand-in; it is the fallback for failed obligations)
-    keys = sorted({k for k, _ in targets})
-    bounded = None
-    try:
-        bounded = run_bounded(pid, tier, seed, keys)
-    except Exception as ex:
-        lines.append("CHECKER: bounded part crashed: " + repr(ex) + "\n" + traceback.format_exc(limit=8))
-        exit_code = 3
-    known = load_known()
     # ---- verdict
     violations = []
     known_hits = []
